@@ -87,6 +87,30 @@ def sessions_for(ibgp: bool):
     return {name: updcheck.Session(*(SESS_IBGP if ibgp else SESS)[name]) for name in ('asn4', 'asn2', 'asn4a')}
 
 
+def swap_sessions(pair: dict, a: str, b: str, ibgp: bool, stats: dict) -> None:
+    """ExaUpdateHist!Swap: sessions a and b are closed, and the sessions opened in their place are given each other's memory
+    (as far as the allocator can be talked into it: b is closed last and a opened first, so that the Negotiated of the new a
+    is allocated where the one of the old b was -- unless something still holds the old one, as the intended cache does)"""
+    import gc
+
+    want = {a: id(pair[b].neg), b: id(pair[a].neg)}
+    pair[a].close()
+    pair[b].close()
+    gc.collect()
+    for name in (a, b):
+        spare = []
+        for _ in range(64):
+            # connections keep coming; the one which is given the memory of the closed session is the one which goes on
+            pair[name].connect()
+            if id(pair[name].neg) == want[name]:
+                break
+            spare.append(pair[name].neg)
+        pair[name].exchange()
+        del spare
+        stats['swaps'] = stats.get('swaps', 0) + 1
+        stats['swaps_at_the_other_address'] = stats.get('swaps_at_the_other_address', 0) + (id(pair[name].neg) == want[name])
+
+
 def alone(session: str, hexbytes: str, ibgp: bool) -> dict:
     """decode one message in a fresh interpreter"""
     env = dict(os.environ)
@@ -188,12 +212,19 @@ def run(tier: str) -> int:
     if broken.violated_invariant != 'HistoryFree':
         raise tlc.TLCError('ExaUpdateHist keyed on bytes only should violate HistoryFree (vacuity guard): ' + broken.out[-800:])
     ck.notes.append('vacuity guard: ExaUpdateHist with the bytes-only cache key violates HistoryFree, as it must')
+    byaddr = tlc.run('MC_ExaUpdateHist', os.path.join(tlc.SPEC, 'MC_ExaUpdateHist_addr.cfg'), 'c19addr', workers=8)
+    ck.tlc(byaddr, 'MC_ExaUpdateHist with KeyByAddress = TRUE (the address of a closed session is given to another one: must be rejected)')
+    if byaddr.violated_invariant != 'HistoryFree':
+        raise tlc.TLCError('ExaUpdateHist keyed on the address of the session should violate HistoryFree (vacuity guard): ' + byaddr.out[-800:])
     hists = [[tuple(x) for x in st['hist']] for st in states if st['hist']]
     rnd = random.Random(seed())
     limit = 3500 if tier == 'quick' else 45000
     ck.cov['exhaustive'] = len(hists) <= limit
     if len(hists) > limit:
-        hists = rnd.sample(hists, limit)
+        # every history "decode, sessions swapped, decode" is kept; the others are sampled
+        core = [h for h in hists if len(h) == 3 and h[1][0] == 'swap' and h[0][0] != 'swap' and h[2][0] != 'swap']
+        rest = [h for h in hists if not (len(h) == 3 and h[1][0] == 'swap' and h[0][0] != 'swap' and h[2][0] != 'swap')]
+        hists = core + rnd.sample(rest, max(0, min(len(rest), limit - len(core) // 2)))
     open_histories(ck, tier)
     conc = concrete(ck)
     # oracle 2: every distinct (session, bytes) decoded alone in a fresh interpreter (the iBGP pair for aggr2, eBGP for the others)
@@ -201,12 +232,16 @@ def run(tier: str) -> int:
     for (mid, s), (raw, umean, ugen) in conc.items():
         fresh[(mid, s)] = norm(alone(s, raw.hex(), ugen['ibgp']))
     lines = []
+    swapstats: dict = {}
     for hi, h in enumerate(hists):
         ibgp = any(mid == 'aggr2' for _, mid in h)
         # aggr2 is an iBGP message (LOCAL_PREF): such histories run on the iBGP pair of sessions, the others on the eBGP pair
         pair = sessions_for(ibgp)
         kept = []
         for step, (s, mid) in enumerate(h):
+            if s == 'swap':
+                swap_sessions(pair, mid[0], mid[1], ibgp, swapstats)
+                continue
             raw, umean, ugen = conc[(mid, s)]
             if ugen['ibgp'] != ibgp:
                 continue  # a message built for the other kind of peering: skip the step
@@ -224,6 +259,10 @@ def run(tier: str) -> int:
         ck.count([list(x) for x in h], nontrivial=len(h) >= 2)
         if hi in (5, len(hists) // 2):
             ck.sample({'history': [list(x) for x in h], 'last_step_observed': {k: v for k, v in kept[-1][2].items() if v not in ([], '', False, -1, 'none')} if kept else {}})
+    ck.cov['session_swaps'] = swapstats
+    ck.notes.append(f'Swap steps: {swapstats.get("swaps", 0)} sessions re-opened, {swapstats.get("swaps_at_the_other_address", 0)} of them with their Negotiated at the address the other closed session had')
+    if swapstats.get('swaps') and not swapstats.get('swaps_at_the_other_address'):
+        raise tlc.TLCError('no re-opened session was given the memory of the other closed one: the Swap steps exercised nothing')
     bad, jres = updcheck.judge([{k: v for k, v in ln.items() if k in ('id', 'u', 'obs')} for ln in lines], 'Judge_ExaUpdateIn', 'c19' + tier[0])
     ck.tlc(jres, f'Judge_ExaUpdateIn: {len(lines)} decoded steps')
     ck.cov['traces_validated_against_impl'] = len(hists)
@@ -263,6 +302,9 @@ def replay(path: str) -> int:
     pair = sessions_for(ibgp)
     obs = None
     for step, (s, mid) in enumerate(h[: c['step'] + 1]):
+        if s == 'swap':
+            swap_sessions(pair, mid[0], mid[1], ibgp, {})
+            continue
         raw, umean, ugen = conc[(mid, s)]
         if ugen['ibgp'] != ibgp:
             continue
